@@ -11,8 +11,8 @@ import json, os, re, shutil, subprocess, sys
 VERIF = '/verif'
 WT = '/tmp/score/wt'
 RELATED = {
-    'C01': ['C01', 'C05', 'C04', 'C18', 'C03'], 'C03': ['C03', 'C04', 'C12', 'C01'], 'C04': ['C04', 'C05', 'C20'], 'C05': ['C05', 'C01', 'C13', 'C12', 'C04'], 'C11': ['C11'],
-    'C12': ['C12'], 'C13': ['C13'], 'C14': ['C14', 'C03'], 'C15': ['C15', 'C12'], 'C16': ['C16'], 'C17': ['C17', 'C20', 'C15'],
+    'C01': ['C01', 'C05', 'C04', 'C18', 'C03'], 'C03': ['C03', 'C04', 'C12', 'C01'], 'C04': ['C04', 'C05', 'C20'], 'C05': ['C05', 'C01', 'C13', 'C12', 'C04', 'C03'], 'C11': ['C11'],
+    'C12': ['C12'], 'C13': ['C13'], 'C14': ['C14', 'C03'], 'C15': ['C15', 'C12', 'C04'], 'C16': ['C16'], 'C17': ['C17', 'C20', 'C15'],
     'C18': ['C18', 'C01', 'C20'], 'C19': ['C19'], 'C20': ['C20', 'C18'],
 }
 THOROUGH = {'C17a-3'}
@@ -101,7 +101,7 @@ def main():
                 continue
             res = {}
             tier = 'thorough' if sid in THOROUGH else 'quick'
-            order = ALL if meta.get('kind') == 'benign' else ([prop] + [c for c in RELATED.get(prop, [prop]) if c != prop])
+            order = (meta.get('checks') or ALL) if meta.get('kind') == 'benign' else ([prop] + [c for c in RELATED.get(prop, [prop]) if c != prop])
             for cid in order:
                 if meta.get('kind') != 'benign' and any(r['violations'] for r in res.values()):
                     break       # already reported by an earlier check: the remaining related checks are not needed
